@@ -61,7 +61,8 @@ def c_hcfg(h: dict) -> str:
 
 
 def c_acts(acts: list[str]) -> str:
-    return cq.clist(a if a in ('AWait', 'ACancel', 'AWarn') else f'(ASet {RC[a]})' for a in acts)
+    # a set() without any reason (never done by the unchanged code) is encoded as an action the model never produces
+    return cq.clist(a if a in ('AWait', 'ACancel', 'AWarn') else f'(ASet {RC[a]})' if a in RC else 'AWarn' for a in acts)
 
 
 def stopper_state(sp: Any) -> tuple[int | None, list[str] | None, bool]:
@@ -477,7 +478,7 @@ def d_linear(ctx: fw.Ctx) -> list[fw.Case]:
             call = (f"linear_stop {c_hcfg(c['h'])} {RC[c['why']]} {c_stopper(when, reasons, ev)} {cq.cZ(r['t0'])} false "
                     f"{{| x_flag := {c_oz(c['f'])}; x_cancel := {c_oz(c['c'])} |}}")
             pw, pr, pe = r['post_state']
-            tr = cq.clist(cq.cpair(cq.cZ(t), a if a.startswith('A') and a in ('ACancel', 'AWarn') else f'ASet {RC[a]}')
+            tr = cq.clist(cq.cpair(cq.cZ(t), a if a in ('ACancel', 'AWarn') else f'ASet {RC[a]}' if a in RC else 'AWait')
                           for (t, a) in r['trace'])
             term = (f"(let r := {call} in stopper_eqb (l_sp r) {c_stopper(pw, pr, pe)} && talist_eqb (l_trace r) {tr} && "
                     f"(l_end r =? {cq.cZ(r['end'])}) && Bool.eqb (l_done r) {cq.cbool(r['done'])})")
